@@ -52,7 +52,24 @@ var c06Arts = []c06Art{
 
 var c06ClassNames = []string{"PckCertChain", "TcbInfo", "QeIdentity", "PckCrl", "RootCaCrl"}
 
+// c06SharedArts: Intel's PCS serves TCB Info and QE Identity under ONE issuer chain; its signer and root are then judged
+// at both Now.TcbInfo and Now.QeIdentity (each response at its own entry).
+var c06SharedArts = func() []c06Art {
+	var out []c06Art
+	for _, a := range c06Arts {
+		switch a.name {
+		case "qeidentity-signer", "qeidentity-hdr-root":
+			continue
+		case "tcbinfo-signer", "tcbinfo-hdr-root":
+			a.name, a.classes, a.levels = strings.Replace(a.name, "tcbinfo", "shared", 1), []int{1, 2}, []int{1, 1}
+		}
+		out = append(out, a)
+	}
+	return out
+}()
+
 type c06World struct {
+	arts    []c06Art
 	w       *world.World
 	win     map[string][2]time.Time // artifact → (notBefore, expiry) as the generator chose them
 	altPath bool                    // the pool also holds a second certificate of the intermediate CA: the chain's own intermediate is off the validated path
@@ -62,13 +79,18 @@ type c06World struct {
 // c06Windows: default windows, all far away from base and pairwise distinct.
 func c06Windows(base time.Time) map[string][2]time.Time {
 	win := map[string][2]time.Time{}
-	for i, a := range c06Arts {
+	for i, a := range append(append([]c06Art{}, c06Arts...), c06SharedArts...) {
 		win[a.name] = [2]time.Time{base.Add(-time.Duration(50+i) * 24 * time.Hour), base.Add(time.Duration(100+7*i) * 24 * time.Hour)}
 	}
 	return win
 }
 
 func c06Build(rng *rand.Rand, base time.Time, win map[string][2]time.Time, altPath bool) *c06World {
+	return c06BuildArts(rng, base, win, altPath, c06Arts)
+}
+
+func c06BuildArts(rng *rand.Rand, base time.Time, win map[string][2]time.Time, altPath bool, arts []c06Art) *c06World {
+	shared := len(arts) != len(c06Arts)
 	s := honestSpec(rng)
 	root, inter, signer := s.Cert("root"), s.Cert("inter"), s.Cert("signer")
 	dps := root.CRLDPs
@@ -91,15 +113,20 @@ func c06Build(rng *rand.Rand, base time.Time, win map[string][2]time.Time, altPa
 		c.NotBefore, c.NotAfter = base.Add(-300*24*time.Hour), base.Add(3000*24*time.Hour)
 		s.Pool = append(s.Pool, "inter2")
 	}
-	for _, a := range c06Arts {
+	for _, a := range arts {
 		if a.role != "" {
 			c := s.Cert(a.role)
 			c.NotBefore, c.NotAfter = win[a.name][0], win[a.name][1]
 		}
 	}
 	s.TcbResp.HdrRoles = []string{"signer", "troot"}
-	s.QeResp.HdrRoles = []string{"qsigner", "qroot"}
-	s.QeResp.SignKey = 6
+	if shared {
+		s.QeResp.HdrRoles = []string{"signer", "troot"}
+		s.Cert("troot").CRLDPs = dps
+	} else {
+		s.QeResp.HdrRoles = []string{"qsigner", "qroot"}
+		s.QeResp.SignKey = 6
+	}
 	s.PckCrlHdrRoles = []string{"psigner", "proot"}
 	issued := base.Add(-400 * 24 * time.Hour)
 	s.Tcb.IssueDate, s.Tcb.NextUpdate = issued, win["tcbinfo-nextUpdate"][1]
@@ -107,7 +134,7 @@ func c06Build(rng *rand.Rand, base time.Time, win map[string][2]time.Time, altPa
 	s.PckCrl.ThisUpdate, s.PckCrl.NextUpdate = issued, win["pckcrl-nextUpdate"][1]
 	s.RootCrls[0].ThisUpdate, s.RootCrls[0].NextUpdate = issued, win["rootcrl-nextUpdate"][1]
 	s.GC, s.CR = true, true
-	return &c06World{world.Build(s), win, altPath, base}
+	return &c06World{arts, world.Build(s), win, altPath, base}
 }
 
 // c06Inside: a time set far inside every default window, entries pairwise distinct.
@@ -127,7 +154,7 @@ func c06Checked(level int, gc, cr bool) bool {
 // validated path, outside its window — at ITS OWN time-set entry.  inDate reports that no checked artifact is out of date.
 func c06Oracle(cw *c06World, T [5]time.Time, gc, cr, accepted bool) (fail string, inDate bool) {
 	inDate = true
-	for _, a := range c06Arts {
+	for _, a := range cw.arts {
 		w := cw.win[a.name]
 		for k, c := range a.classes {
 			if !c06Checked(a.levels[k], gc, cr) {
@@ -278,17 +305,35 @@ func c06(r *hx.Run) {
 			c06Probe(r, rng, cw, a)
 		}
 	}
+	// (1b) TCB Info and QE Identity served under one shared issuer chain: its signer, its header root and the pool root
+	for rep := 0; rep < reps; rep++ {
+		for _, a := range c06SharedArts {
+			if !strings.HasPrefix(a.name, "shared-") && a.name != "pool-root" {
+				continue
+			}
+			rng := c05CaseRng(r, 0x36, idx)
+			idx++
+			win := c06Windows(t0)
+			win[a.name] = [2]time.Time{t0.Add(-day - time.Duration(rng.IntN(3600))*time.Second), t0.Add(30*day + time.Duration(rng.IntN(3600))*time.Second)}
+			cw := c06BuildArts(rng, t0, win, false, c06SharedArts)
+			c06Probe(r, rng, cw, a)
+		}
+	}
 	// (2) random windows and random time assignments (500 quick / 8000 thorough)
 	for i := 0; i < randWorlds; i++ {
 		rng := c05CaseRng(r, 0x16, i)
 		win := c06Windows(t0)
 		var bounds []time.Time
-		for _, a := range c06Arts {
+		arts := c06Arts
+		if rng.IntN(3) == 0 {
+			arts = c06SharedArts
+		}
+		for _, a := range arts {
 			w := [2]time.Time{t0.Add(-time.Duration(1+rng.IntN(60*86400)) * time.Second), t0.Add(time.Duration(20*86400+rng.IntN(180*86400)) * time.Second)}
 			win[a.name] = w
 			bounds = append(bounds, w[0], w[1])
 		}
-		cw := c06Build(rng, t0, win, rng.IntN(8) == 0)
+		cw := c06BuildArts(rng, t0, win, len(arts) == len(c06Arts) && rng.IntN(8) == 0, arts)
 		for k := 0; k < perWorld; k++ {
 			var T [5]time.Time
 			shape := ""
